@@ -129,7 +129,7 @@ UNIVERSAL = [
 ]  # fmt: skip
 
 SPECIFIC = {
-    "str": ["x y", "a\nb", "1e+3", "._1", "~", "NO", "{}", "[]", "%", "@", "`", "!t", "&a", "*a", "|", ">", "?", "- a", "k:", ": v", "\t", "<<", "=", "0o7", "0b1", "+.inf", "1:2:3", "1_0.5_1", "2001-01-01T00:00:00Z", "\"", "'", "\\"],
+    "str": ["x y", "a\nb", "1e+3", "._1", "~", "NO", "{}", "[]", "%", "@", "`", "!t", "&a", "*a", "|", ">", "?", "- a", "k:", ": v", "\t", "<<", "=", "0o7", "0b1", "+.inf", "1:2:3", "1_0.5_1", "2001-01-01T00:00:00Z", "2001-1-1 1:02:03.5 -5", "\"", "'", "\\"],
     "int": ["-0", "0x10", "0o7", "0b11", "1_0", "+1", "007", "1:00", -10**20],
     "float": [-0.0, 5e-324, 1.7976931348623157e308, 0.1, 1 / 3, 1e15, 1e17, 123456789.123456789, "1e+3", ".5", "5.", "1_0.5", "+.inf", "-.INF", ".NaN", "1:30.5", "0x10"],
     "bool": ["false", "True", "FALSE", "no", "off", "n"],
@@ -341,7 +341,7 @@ def build_parser(shape, tspec, dobj, has_default, mode):
         p.add_argument("--d", type=List[make_dataclass(tspec, dobj, has_default)], default=[])
     elif shape == "dictdc":
         p.add_argument("--d", type=Dict[str, make_dataclass(tspec, dobj, has_default)], default={})
-    elif shape in ("sub_a", "sub_bc"):
+    elif shape in SUB_SHAPES:
         p.add_argument("--top", type=int, default=0)
         sc = p.add_subcommands()
         a = _new(mode, config=True)
@@ -349,8 +349,9 @@ def build_parser(shape, tspec, dobj, has_default, mode):
         a.add_argument("--n", type=int, default=1)
         b = _new(mode, config=False)
         b.add_argument("--m", type=Optional[int], default=None)
-        sc.add_subcommand("a", a)
-        sc.add_subcommand("b", b)  # level order: both first-level subcommands before the second level
+        sc.add_subcommand("a", a, aliases=("al",))  # reachable under a second name
+        sc.add_subcommand("b", b)  # level order: all first-level subcommands before the second level
+        sc.add_subcommand("e", _new(mode, config=False))  # a subcommand that declares no argument at all
         sc2 = b.add_subcommands()
         c = _new(mode, config=False)
         c.add_argument("--y", type=build_type(tspec), **kw)
@@ -399,6 +400,10 @@ def place(shape, v):
         return {"subcommand": "a", "a": {"x": v}}, ["a", "--x=" + t]
     if shape == "sub_bc":
         return {"b": {"c": {"y": v}}}, ["b", "c", "--y=" + t]
+    if shape == "sub_alias":  # the subcommand a, chosen through its alias
+        return {"subcommand": "al", "al": {"x": v}}, ["al", "--x=" + t]
+    if shape == "sub_e":  # the subcommand without arguments (nothing to place: the value is not used)
+        return {"subcommand": "e"}, ["e"]
     if shape == "link":
         return {"src": {"x": v}, "dst": {"k": 5}}, ["--src.x=" + t, "--dst.k=5"]
     if shape == "inner":
@@ -413,6 +418,7 @@ def place(shape, v):
 
 
 FILE_SHAPES = ("inner_file", "dataclass_file")
+SUB_SHAPES = ("sub_a", "sub_bc", "sub_alias", "sub_e")
 
 # ---------------------------------------------------------------------------------------------------
 # one case
@@ -482,7 +488,7 @@ def _typed_case(case, cwd):
         res["status"] = "parser-not-buildable:" + type(ex).__name__
         return res
     obj, argv = place(shape, value)
-    drop = ("cfg", "a.cfg") if shape == "sub_a" else ("cfg",)
+    drop = ("cfg", "a.cfg", "al.cfg") if shape in ("sub_a", "sub_alias") else ("cfg",)
     o = outcome(p.parse_object, copy.deepcopy(obj))
     res["ops"] += 1
     c_obj = strip_cfg(o["value"], drop) if o["kind"] == "ok" else None
@@ -549,6 +555,8 @@ def _typed_case(case, cwd):
                 if cls and fmt in JSON_FORMATS and mode == "yaml" and json_key_root_cause(c0, neutralise_none(c0, c1) if modulo_none and c1 is not None else c1):
                     res["devs"].append((SIG_JSON_KEY, f"[{channel} {fmt}] config {short(c0)} text {text!r}: {detail}"))
                     continue
+                if cls == "reparse-rejected" and shape in SUB_SHAPES and _unnamed_subcommand_root_cause(p.parse_string, text, c0, drop, modulo_none):
+                    cls = CLS_UNNAMED_SUBCOMMAND
                 if cls and "skip_default" in channel and not cls.startswith("reparse-") and _dict_kwargs_root_cause(c0, c1, detail):
                     cls = "class-spec:dict_kwargs-not-compared-with-default"
                 elif cls and "skip_default" in channel and not cls.startswith("reparse-") and _dict_items_root_cause(p, c0, detail, drop):
@@ -642,6 +650,8 @@ def _typed_case(case, cwd):
                 if cls and fmt in JSON_FORMATS and mode == "yaml" and json_key_root_cause(c0, c1s):
                     res["devs"].append((SIG_JSON_KEY, f"[{channel} {fmt}] config {short(c0)} file {text!r}: {detail}"))
                     continue
+                if cls == "reparse-rejected" and text is not None and shape in SUB_SHAPES and _unnamed_subcommand_root_cause(p.parse_string, text, c0, drop, modulo_none):
+                    cls = CLS_UNNAMED_SUBCOMMAND
                 detail = f"config {short(c0)} ({entry}) file {text!r}: {detail}"
             if channel == "save" and not cls:
                 single_ok = True
@@ -675,6 +685,8 @@ def _typed_case(case, cwd):
                 res["rt"] += 1
                 res["ops"] += 1
                 chan("print_config")
+                if cls == "reparse-rejected" and shape in SUB_SHAPES and _unnamed_subcommand_root_cause(mk().parse_string, text, c_argv, drop, "skip_null" in flags):
+                    cls = CLS_UNNAMED_SUBCOMMAND
                 detail = f"args {argv!r} printed {text!r}: {detail}"
                 alias = cls
                 if cls == DECIMAL_VIA_FLOAT:
@@ -686,7 +698,42 @@ def _typed_case(case, cwd):
                 continue  # dump() with the same flags already deviated for this configuration (same text): one root cause
             if cls and (f0, cls) not in reported and (f0, alias) not in reported:
                 record(channel, f0, cls, detail, [f0])
-        if shape == "sub_a" and "" in pc_flags:
+        if shape != "flat" and "" in pc_flags:
+            # --print_config placed BEFORE a config file option and the other arguments: it must still print the
+            # configuration "after applying all other arguments".  The file is an empty mapping, so the expected
+            # configuration is the one of the arguments alone.
+            with open(f"empty.{ext}", "w") as fh:
+                fh.write("{}\n")
+            pre = ["--cfg", f"empty.{ext}"]
+            oe = outcome(mk().parse_args, pre + list(argv))
+            res["ops"] += 1
+            if oe["kind"] == "ok":
+                c_exp = strip_cfg(oe["value"], drop)
+
+                def printed_roundtrip(args, fname):
+                    op = outcome(mk().parse_args, args)
+                    res["ops"] += 1
+                    if op["kind"] != "exit" or op.get("code") not in (0, None):
+                        return "print-fails:" + (op.get("type", "") or op["kind"]).rsplit(".", 1)[-1], f"args {args!r}: {op.get('message') or op.get('stderr', '')[-300:]}"
+                    with open(fname, "w") as fh:
+                        fh.write(op["stdout"])
+                    cls, detail, _ = judge_reparse(mk().parse_args, ["--cfg", fname], c_exp, drop, False)
+                    res["rt"] += 1
+                    res["ops"] += 1
+                    if cls == "reparse-rejected" and shape in SUB_SHAPES and _unnamed_subcommand_root_cause(mk().parse_string, op["stdout"], c_exp, drop, False):
+                        cls = CLS_UNNAMED_SUBCOMMAND
+                    return cls, f"args {args!r} printed {op['stdout']!r}: {detail}"
+
+                cls, detail = printed_roundtrip(["--print_config"] + pre + list(argv), f"printed_first.{ext}")
+                chan("print_config-before-config-option")
+                if cls and cls != DECIMAL_VIA_FLOAT and "dump" not in raised and (f0, cls) not in reported and (f0, cls.replace("print-fails:", "dump-raises:")) not in reported:
+                    # root cause: the same request placed right AFTER the config file option prints a text that round-trips
+                    cls_last, _ = printed_roundtrip(pre + ["--print_config"] + list(argv), f"printed_last.{ext}")
+                    if cls_last is None:
+                        res["devs"].append((SIG_PC_BEFORE_CONFIG, f"[print_config first] {detail}"))
+                    else:
+                        record("print_config-before-config-option", f0, cls, detail, [f0])
+        if shape in ("sub_a", "sub_alias") and "" in pc_flags:
             # --print_config given to the subcommand prints that subcommand's settings only; fed back at the same level
             op = outcome(mk().parse_args, [argv[0], "--print_config"] + list(argv[1:]))
             res["ops"] += 1
@@ -700,6 +747,13 @@ def _typed_case(case, cwd):
                 res["ops"] += 1
                 chan("print_config-subcommand")
                 detail = f"args {argv!r} printed {op['stdout']!r}: {detail}"
+            if cls and cls.startswith("print-fails:") and shape == "sub_alias":
+                # root cause: the same command line with the canonical subcommand name prints fine
+                oc = outcome(mk().parse_args, ["a", "--print_config"] + list(argv[1:]))
+                res["ops"] += 1
+                if oc["kind"] == "exit" and oc.get("code") in (0, None):
+                    res["devs"].append((SIG_PC_ALIAS, f"[print_config-subcommand] {detail}"))
+                    cls = None
             if cls == DECIMAL_VIA_FLOAT:
                 res["devs"].append((SIG_DECIMAL, f"[print_config-subcommand] {detail}"))
             elif cls and (f0, cls) not in reported:
@@ -707,7 +761,49 @@ def _typed_case(case, cwd):
     return res
 
 
-KEEP_CLASSES = {"numeric-type-changed-value-equal", "class_path-differs", DECIMAL_VIA_FLOAT,
+CLS_UNNAMED_SUBCOMMAND = "chosen-subcommand-without-settings-not-named"
+SIG_PC_BEFORE_CONFIG = "print_config:flag-before-config-option:prints-the-configuration-of-the-file-alone"
+SIG_PC_ALIAS = "print_config-subcommand:subcommand-alias:settings-looked-up-under-the-canonical-name"
+
+
+def _unnamed_subcommand_root_cause(parse_string, text, c0, drop, modulo_none=False):
+    """A rejected re-parse on a parser with subcommands: True iff the original configuration chose, at some level, a
+    subcommand whose settings are empty (in the text), and the SAME text with just the names of the chosen
+    subcommands added (the `subcommand` entries, which dump always removes) re-parses to the original."""
+    import yaml
+
+    try:
+        data = yaml.safe_load(text)
+    except Exception:
+        return False
+    if not isinstance(data, dict):
+        return False
+    found = []
+
+    def inject(ns, d):
+        name = vars(ns).get("subcommand")
+        if not isinstance(name, str) or not isinstance(d, dict):
+            return
+        sub = vars(ns).get(name)
+        if not d.get(name):
+            found.append(name)
+            d[name] = d.get(name) or {}
+        d["subcommand"] = name
+        if isinstance(sub, argparse.Namespace):
+            inject(sub, d[name])
+
+    inject(c0, data)
+    if not found:
+        return False
+    try:
+        alt = json.dumps(data)
+    except Exception:
+        return False
+    cls, _, _ = judge_reparse(parse_string, alt, c0, drop, modulo_none)
+    return cls is None
+
+
+KEEP_CLASSES = {CLS_UNNAMED_SUBCOMMAND, "numeric-type-changed-value-equal", "class_path-differs", DECIMAL_VIA_FLOAT,
                 "dict-valued-argument:items-compared-with-default-items",
                 "class-spec:dict_kwargs-not-compared-with-default"}
 
@@ -955,6 +1051,14 @@ def typed_cases(tier):
                     if shape in FILE_SHAPES and _has_nan_inf(v):
                         continue
                     add(shape, t, d, v)
+    # the subcommand that declares no argument (the value is not used), and the subcommand chosen through its alias
+    for m in ("yaml", "json"):
+        add("sub_e", "str", UNSET, "-", m)
+    for t in ("str", ["Optional", "int"]) if quick else SHAPE_TYPES:
+        vals = (["1e3", "null", "", "a"] if t == "str" else pool(t))[: 5 if quick else 14]
+        for d in ([UNSET] + defaults(t))[:2]:
+            for v in vals:
+                add("sub_alias", t, d, v)
     # class-typed arguments
     # class specs as the argument's value, as a Union member and as an item of a list / dict value (an item replaces
     # the previous item as a whole when the serialised value is put back, a Namespace-valued argument is merged)
@@ -1055,7 +1159,8 @@ def explore_typed(ctx, nontrivial):
         ("typed layer: accepted and rejected cases both occur", status.get("accepted", 0) > 1000 and status.get("rejected", 0) > 100),
         (f"typed layer: every parser shape has accepted cases ({sorted(set(shapes) - set(per_shape))})", set(shapes) == set(per_shape)),
         ("typed layer: every channel executed (dump, skip_default, skip_none, skip_validation, print_config at root and at subcommand level, save, save-default, save-multifile)",
-         all(channels.get(c, 0) > 0 for c in ("dump", "dump-skip_default", "dump-skip_none", "dump-skip_validation", "print_config", "print_config-subcommand", "save", "save-default", "save-multifile"))),
+         all(channels.get(c, 0) > 0 for c in ("dump", "dump-skip_default", "dump-skip_none", "dump-skip_validation", "print_config", "print_config-subcommand", "print_config-before-config-option", "save", "save-default", "save-multifile"))),
+        ("typed layer: the subcommand without arguments and the subcommand alias were chosen and accepted", per_shape.get("sub_e", 0) >= 2 and per_shape.get("sub_alias", 0) >= 5),
         ("typed layer: the multi-file save with nulls kept ran on every parser shape, not only on those with a sub-config file",
          channels.get("save-multifile", 0) >= 0.9 * status.get("accepted", 0)),
         (f"typed layer: class specs with dict_kwargs and without init_args were accepted as argument value, list item and dict value ({sorted(spec_kinds)})",
@@ -1070,7 +1175,7 @@ def explore_typed(ctx, nontrivial):
         "bounds": {
             "leaves": LEAVES,
             "G2_constructors_over_core": ["Optional", "List", "DictStr", "DictInt", "TupleVar", "Set", "Union(ordered pairs)", "Tuple2(pairs)"],
-            "shapes": ["flat"] + SHAPES + ["class"],
+            "shapes": ["flat"] + SHAPES + ["sub_alias", "sub_e", "class"],
             "shape_types": SHAPE_TYPES,
             "modes": ["yaml", "json"],
             "class_positions": ["Base", "Optional[Base]", "List[Base]", "Dict[str, Base]", "Any holding a class spec"],
@@ -1078,6 +1183,8 @@ def explore_typed(ctx, nontrivial):
                                  "Optional init arg with non-None default set to None", "nested class argument", "missing required init arg (rejected)"],
             "channels": ["dump x formats x skip_default", "dump default (skip_none)", "dump skip_validation (structured shapes; thorough: x formats)",
                          "--print_config[=skip_default|skip_null|comments|skip_default,skip_null] -> --cfg",
+                         "--print_config placed before --cfg FILE and the other arguments (structured shapes)",
+                         "--print_config at subcommand level, subcommand named canonically and by alias",
                          "save single-file x formats -> parse_path (quick: structured shapes)", "save default (configurations holding a None, file shapes)",
                          "save multifile with nulls kept on every shape (with sub-config file on the file shapes)"],
         },  # fmt: skip
